@@ -154,5 +154,27 @@ pub fn run(ctx: &mut Ctx) {
         let pd = len(&mut ctx.rng);
         let i = input_of(&mut ctx.rng, kind, pl, pd, dl); rt_input(ctx, &i);
     }
+    // 7. LARGE element counts (added after seeded change C01-2: `Vec<T>::decode_static` pre-allocating at most 1024
+    //    elements while `decode_dynamic` iterates over `capacity()`): every vector field of non-byte elements with
+    //    255 / 256 / 1023 / 1024 / 1025 / 3000 entries (thorough: also 70 000)
+    {
+        use fuel_tx::{UploadBody};
+        let mut counts: Vec<usize> = vec![256, 1024, 1025];
+        if ctx.thorough() { counts.extend([255, 1023, 3000, 70_000]); }
+        for n in counts {
+            let pol = policies(&mut ctx.rng, 0b1000);
+            let wits: Vec<Witness> = (0..n).map(|i| vec![(i % 251) as u8; i % 3].into()).collect();
+            let outs: Vec<Output> = (0..n).map(|_| output_of(&mut ctx.rng, 3)).collect();
+            let ins: Vec<Input> = (0..n).map(|_| input_of(&mut ctx.rng, 0, 0, 0, 0)).collect();
+            ctx.count(&format!("gen.large-count.{n}"));
+            rt_tx(ctx, &Transaction::script(1, vec![1, 2, 3], vec![], pol, vec![], vec![], wits.clone()).into());
+            rt_tx(ctx, &Transaction::script(1, vec![], vec![9], pol, vec![], outs.clone(), vec![]).into());
+            rt_tx(ctx, &Transaction::script(1, vec![], vec![], pol, ins.clone(), vec![], vec![]).into());
+            let slots: Vec<StorageSlot> = (0..n).map(|i| { let mut k = [0u8; 32]; k[28..].copy_from_slice(&(i as u32).to_be_bytes()); StorageSlot::new(k.into(), b32(&mut ctx.rng).into()) }).collect();
+            let salt = b32(&mut ctx.rng); rt_tx(ctx, &Transaction::create(0, pol, salt.into(), slots, vec![], vec![], vec![vec![1u8].into()]).into());
+            let proof: Vec<fuel_types::Bytes32> = (0..n).map(|_| b32(&mut ctx.rng).into()).collect();
+            let root = b32(&mut ctx.rng); rt_tx(ctx, &Transaction::upload(UploadBody { root: root.into(), witness_index: 0, subsection_index: 0, subsections_number: 1, proof_set: proof }, pol, vec![], vec![], vec![vec![1u8].into()]).into());
+        }
+    }
     ctx.note("non-trivial = distinct value text of an input / policy set / receipt / output / transaction that was encoded and decoded");
 }
